@@ -74,20 +74,34 @@ func (c12Prop) Assumptions() []string {
 
 var c12Types = []string{"Flat", "Nested", "Ptrs", "Slices", "OneMap", "Timed", "Padded", "Omit"}
 
-var c12OpNames = []string{"build", "build", "register", "register", "decode", "decode", "encode", "encode", "readfile", "readfile", "closebanks", "schema", "parsetime", "parsetime", "encoder"}
+var c12OpNames = []string{"build", "build", "register", "register", "decode", "decode", "decodeproj", "decodeproj", "encode", "encode", "readfile", "readfile", "closebanks", "schema", "parsetime", "parsetime", "encoder"}
 
 func (c12Prop) Generate(seed uint64, idx int, tier string) *Plan {
 	r := NewRng(seed, uint64(idx)<<8|0x12)
 	pl := &C12Plan{VSeed: r.Uint64()}
 	ng := r.Range(2, 6)
+	// Swarm: every lock release/acquire pair and every recycled bank adds a
+	// (legitimate) happens-before edge between goroutines, and enough of them
+	// order everything. Half of the plans therefore use only a small random
+	// subset of operation kinds, and a third never recycle a bank, so that
+	// unsynchronised accesses to shared codec state stay unordered.
+	names := c12OpNames
+	if r.P(1, 2) {
+		k := r.Range(1, 4)
+		names = nil
+		for i := 0; i < k; i++ {
+			names = append(names, r.Pick(c12OpNames))
+		}
+	}
 	for g := 0; g < ng; g++ {
 		n := r.Range(2, 10)
 		var ops []C12Op
 		for i := 0; i < n; i++ {
-			ops = append(ops, C12Op{Op: r.Pick(c12OpNames), A: r.Intn(1 << 12), B: r.Intn(1 << 12)})
+			ops = append(ops, C12Op{Op: r.Pick(names), A: r.Intn(1 << 12), B: r.Intn(1 << 12)})
 		}
 		pl.Ops = append(pl.Ops, ops)
 	}
+	freshOnly := r.P(1, 3)
 	ns := r.Range(8, 64)
 	switch r.Intn(4) {
 	case 0: // long runs of the same goroutine
@@ -104,6 +118,10 @@ func (c12Prop) Generate(seed uint64, idx int, tier string) *Plan {
 	}
 	np := r.Range(2, 24)
 	for i := 0; i < np; i++ {
+		if freshOnly {
+			pl.Pool = append(pl.Pool, -1)
+			continue
+		}
 		switch r.Intn(4) {
 		case 0:
 			pl.Pool = append(pl.Pool, -1)
@@ -455,7 +473,10 @@ type TimeOnly struct {
 // main goroutine before the workers start).
 type c12Env struct {
 	types    []*TypeDesc
-	codecs   []avro.Codec      // shared codec per type
+	codecs   []avro.Codec // shared codec per type
+	pcodecs  []avro.Codec // shared codec per type for a projected target (skip paths)
+	ptypes   []reflect.Type
+	ecodecs  []avro.Codec      // shared codec per type for an empty target (everything skipped)
 	values   [][]reflect.Value // shared values per type
 	payloads [][][]byte        // per type: own encoding of each value
 	files    [][]byte          // prebuilt container files (one per type)
@@ -553,6 +574,19 @@ func (env *c12Env) execOp(g int, op C12Op, alone bool) (res string) {
 		rb := avro.NewReadBuf(env.payloads[ti][vi])
 		err := env.codecs[ti].Read(rb, out.Addr().UnsafePointer())
 		s := fmt.Sprintf("decoded err=%v %s", err, describeAll([]reflect.Value{out}))
+		rb.ExtractResourceBank().Close()
+		return s
+	case "decodeproj":
+		// shared codecs whose target lacks fields: the skip paths of a shared codec
+		vi := op.B % len(env.payloads[ti])
+		c, t := env.pcodecs[ti], env.ptypes[ti]
+		if op.B%3 == 0 {
+			c, t = env.ecodecs[ti], reflect.TypeFor[Empty]()
+		}
+		out := reflect.New(t).Elem()
+		rb := avro.NewReadBuf(env.payloads[ti][vi])
+		err := c.Read(rb, out.Addr().UnsafePointer())
+		s := fmt.Sprintf("decodedproj err=%v left=%d %s", err, rb.Len(), describeAll([]reflect.Value{out}))
 		rb.ExtractResourceBank().Close()
 		return s
 	case "encode":
@@ -664,6 +698,21 @@ func newC12Env(pl *C12Plan) (*c12Env, error) {
 		for _, v := range vals {
 			pls = append(pls, ownEncoding(c, v))
 		}
+		pt := d.Type
+		if pt.NumField() >= 2 {
+			pt = projectedType(pt)
+		}
+		pc, err := s.Codec(reflect.New(pt).Elem().Interface())
+		if err != nil {
+			return nil, err
+		}
+		ec, err := s.Codec(Empty{})
+		if err != nil {
+			return nil, err
+		}
+		env.pcodecs = append(env.pcodecs, pc)
+		env.ptypes = append(env.ptypes, pt)
+		env.ecodecs = append(env.ecodecs, ec)
 		env.types = append(env.types, d)
 		env.codecs = append(env.codecs, c)
 		env.values = append(env.values, vals)
@@ -827,6 +876,14 @@ func (c12Prop) Execute(p *Plan, run *Run) any {
 		return nil
 	}
 
+	for g := 0; g < ng; g++ {
+		for i, op := range pl.Ops[g] {
+			run.Probes.Inc("op:" + op.Op)
+			if i < len(results[g].res) && (strings.Contains(results[g].res[i], "err: ") || strings.Contains(results[g].res[i], "err=") && !strings.Contains(results[g].res[i], "err=<nil>")) {
+				run.Probes.Inc("op-returned-error:" + op.Op)
+			}
+		}
+	}
 	// ---- each goroutine's list alone, afterwards
 	sched.turn = -1
 	for g := 0; g < ng; g++ {
